@@ -9,7 +9,7 @@ PROPERTY = {
     'id': 'C01',
     'technique': 'CrossHair symbolic execution of the real loader/constructors/evaluation with symbolic merge-control flags at tag sites; shape, site position and literal tag by exact decision-tree selectors; z3 decides every path',
     'assumptions': [
-        'metadata codec stub for !metadata:sK sites (native replays use the real pickle codec); the {{..}} syntax goes through the real _encode_all_metadata',
+        'metadata codec stub for !metadata:<token> sites (native replays use the real pickle codec); the {{..}} syntax goes through the real _encode_all_metadata',
         'PyYAML scanning/parsing/composing of concrete text is trusted',
         'scalars come from a pool of 12 literals; keys from {a, b, _u, 1, 2.5, x}',
     ],
